@@ -498,6 +498,18 @@ class Session:
                 out.append(fn(idx))
         return out
 
+    def minmax_cross_instances(self):
+        """every min/max bound instantiated at the attaining index of every other min/max over the same axes
+        (two evaluations of max over the same tensor are equal)"""
+        out = []
+        for (label, fn) in self.ctx.schemas:
+            if label[0] != "minmax":
+                continue
+            for (widx, wdims) in self.ctx.ghost.get("minmax_witness", []):
+                if len(wdims) == len(label[1]) and all(a.same(b) for a, b in zip(wdims, label[1])):
+                    out.append(fn(widx))
+        return out
+
     def schema_instances(self, cands, kinds=("minmax", "all", "any", "equal")):
         """instantiate every registered quantified fact at all combinations of the candidate digit tuples"""
         import itertools
